@@ -706,9 +706,9 @@ Inductive cardReportW := CardQuery (q : cardQueryW) | CardMultiget (m : multiget
 
 Definition um_card_report (url_ok : string -> bool) (d : N) (t : xtree) : option cardReportW :=
   chk d (if kid_is t NS_CARD "addressbook-query" then
-           match um_card_query 0 card_query_zero t with Some q => Some (CardQuery q) | None => None end
+           match um_card_query 0 card_query_zero (drop_qualified t) with Some q => Some (CardQuery q) | None => None end
          else if kid_is t NS_CARD "addressbook-multiget" then
-           match um_multiget NS_CARD "addressbook-multiget" url_ok 0 multiget_zero t with Some m => Some (CardMultiget m) | None => None end
+           match um_multiget NS_CARD "addressbook-multiget" url_ok 0 multiget_zero (drop_qualified t) with Some m => Some (CardMultiget m) | None => None end
          else None).
 
 (* ------------------------------------------------------------------ *)
@@ -1284,9 +1284,9 @@ Definition decode_aprop_filter (el : apropFilterW) : bool :=
 Definition decode_addr_data_req (ad : addrDataW) : bool :=
   negb (ad_allprop ad && nonempty (ad_props ad)).
 
-Inductive step3 := SGo | SBad | SFail | SPanic.   (* go on / 400 / plain error (500) / panic *)
+Inductive step3 := SGo | SBad | SPanic.   (* go on / 400 / panic *)
 
-(** Prop.Decode(&addressData): a decoding error is returned unwrapped *)
+(** Prop.Decode(&addressData): missing is fine, a decoding error is a 400 *)
 Definition addr_data_of_prop (s : selW) : step3 :=
   match s_prop s with
   | None => SGo
@@ -1296,7 +1296,7 @@ Definition addr_data_of_prop (s : selW) : step3 :=
     | Some raw =>
       match raw_token_reader raw with
       | Ok t => match um_addr_data 0 addr_data_zero t with
-                | None => SFail
+                | None => SBad
                 | Some ad => if decode_addr_data_req ad then SGo else SBad
                 end
       | _ => SPanic
@@ -1328,7 +1328,6 @@ Definition limit_nonpositive (n : N) : bool := (n =? 0) || (9223372036854775808 
 Definition card_handle_query (env : card_env) (r : request) (q : cardQueryW) : hres N :=
   match addr_data_of_prop (aq_sel q) with
   | SPanic => HPanic
-  | SFail => HErr EPlain []
   | SBad => bad_request
   | SGo =>
     if negb (forallb decode_aprop_filter (af_props (aq_filter q))) then bad_request
@@ -1342,7 +1341,6 @@ Definition card_handle_query (env : card_env) (r : request) (q : cardQueryW) : h
 Definition card_handle_multiget (env : card_env) (m : multigetW) : hres N :=
   match addr_data_of_prop (mg_sel m) with
   | SPanic => HPanic
-  | SFail => HErr EPlain []
   | SBad => bad_request
   | SGo => multiget_loop (ae_get_obj env) (mg_sel m) (mg_hrefs m)
   end.
